@@ -464,7 +464,7 @@ class NotEvaluable(Exception):
     pass
 
 
-def eval_exact(t, env=None):
+def eval_exact(t, env=None, prims=None):
     """exact evaluation (Fractions / bools) of a closed term built from numbers, env symbols, + * **, floor, mod, int,
     abs, comparisons, and/or/not and phi; raises NotEvaluable naming the first construct that is none of these"""
     import math
@@ -477,31 +477,31 @@ def eval_exact(t, env=None):
     if h == "bool":
         return t[1]
     if h == "add":
-        return sum((eval_exact(x, env) for x in t[1:]), Fraction(0))
+        return sum((eval_exact(x, env, prims) for x in t[1:]), Fraction(0))
     if h == "mul":
         r = Fraction(1)
         for x in t[1:]:
-            r *= eval_exact(x, env)
+            r *= eval_exact(x, env, prims)
         return r
     if h == "pow":
-        b, e = eval_exact(t[1], env), eval_exact(t[2], env)
+        b, e = eval_exact(t[1], env, prims), eval_exact(t[2], env, prims)
         if e.denominator != 1:
             raise NotEvaluable("fractional power")
         return b ** int(e)
     if h == "phi":
-        return eval_exact(t[2] if eval_exact(t[1], env) else t[3], env)
+        return eval_exact(t[2] if eval_exact(t[1], env, prims) else t[3], env, prims)
     if h == "cmp":
-        a, b = eval_exact(t[2], env), eval_exact(t[3], env)
+        a, b = eval_exact(t[2], env, prims), eval_exact(t[3], env, prims)
         return {"Eq": a == b, "NotEq": a != b, "Lt": a < b, "LtE": a <= b, "Gt": a > b, "GtE": a >= b}[t[1]]
     if h == "and":
-        return all(eval_exact(x, env) for x in t[1:])
+        return all(eval_exact(x, env, prims) for x in t[1:])
     if h == "or":
-        return any(eval_exact(x, env) for x in t[1:])
+        return any(eval_exact(x, env, prims) for x in t[1:])
     if h == "not":
-        return not eval_exact(t[1], env)
+        return not eval_exact(t[1], env, prims)
     if h == "call":
         if t[1] in ("floor", "int", "abs", "mod", "float", "round"):
-            args = [eval_exact(x, env) for x in t[2:]]
+            args = [eval_exact(x, env, prims) for x in t[2:]]
             if t[1] == "floor":
                 return Fraction(math.floor(args[0]))
             if t[1] == "int":
@@ -512,17 +512,25 @@ def eval_exact(t, env=None):
                 return args[0]
             if t[1] == "mod":
                 return args[0] % args[1]
+        if prims is not None:
+            r = prims(t, env)
+            if r is not None:
+                return r
         raise NotEvaluable("call of %s" % t[1])
     if h == "idx":
-        i = eval_exact(t[2], env)
+        i = eval_exact(t[2], env, prims)
         b = t[1]
         if b[0] in ("list", "tuple") and i.denominator == 1 and -(len(b) - 1) <= i < len(b) - 1:
-            return eval_exact(b[1:][int(i)], env)
+            return eval_exact(b[1:][int(i)], env, prims)
         if b[0] == "dict":
             for k, v in b[1]:
                 if k[0] == "num" and k[1] == i:
-                    return eval_exact(v, env)
+                    return eval_exact(v, env, prims)
         raise NotEvaluable("subscript out of range / of a non-literal")
+    if h == "attr" and prims is not None:
+        r = prims(t, env)
+        if r is not None:
+            return r
     if h == "sym":
         raise NotEvaluable("free symbol %s" % t[1])
     raise NotEvaluable("term kind %s" % (h,))
